@@ -429,6 +429,24 @@ type C03Case struct {
 	Faults  []Fault    `json:"faults"`
 	Expect  []ErrSpec  `json:"expect"` // typed errors of the applied faults
 	Encoded string     `json:"encoded"`
+	// EncAll: EVERY assertion travels encrypted. Under SkipSignatureValidation nothing is decrypted, so the
+	// Response carries no assertion the caller could be given: it has to be refused as one without assertions.
+	EncAll bool `json:"encAll,omitempty"`
+}
+
+// encAllSkip: the case's Response has, for the library, no assertion at all.
+func (c *C03Case) encAllSkip() bool { return c.EncAll && c.SP.Skip }
+
+var missingAssertion = ErrSpec{Type: "ErrMissingElement", Tag: "Assertion"}
+
+// encryptAll marks every assertion of the issuance for encryption to E1 (random-free specs: fixed key and IV).
+func encryptAll(g *h.Genuine, sp *h.SPConfig) {
+	sp.Enc = h.KeyCfg{Mode: "tls", Field: h.CertRef{Key: "E1", Window: "wide"}}
+	g.Enc = nil
+	for i := range g.Model.Assertions {
+		alg := h.DataAlgs[i%len(h.DataAlgs)]
+		g.Enc = append(g.Enc, &h.EncSpec{DataAlg: alg, Transport: h.Transports[i%3], Digest: "-", To: h.CertRef{Key: "E1", Window: "wide"}, Key: make([]byte, h.KeyLen(alg)), IV: make([]byte, map[bool]int{true: 12, false: 16}[h.IsGCM(alg)])})
+	}
 }
 
 func genFault(t *rapid.T, nAssert int) Fault {
@@ -483,6 +501,12 @@ func genC03(t *rapid.T) C03Case {
 			c.Faults = append(c.Faults, f)
 			c.Expect = append(c.Expect, spec)
 		}
+	}
+	if sp.Skip && len(g.Model.Assertions) > 0 && rapid.IntRange(0, 7).Draw(t, "encryptAll") == 0 {
+		c.EncAll = true
+		encryptAll(g, &c.SP)
+		c.Faults = append(c.Faults, Fault{Target: -1, Kind: "noassertion", Variant: "all-encrypted-under-skip"})
+		c.Expect = append(c.Expect, missingAssertion)
 	}
 	if g.Placement != "response" && g.Placement != "none" {
 		// keep one sign spec per remaining assertion
@@ -544,7 +568,7 @@ func structOf(m *h.ResponseModel) *types.Response {
 func checkC03(c C03Case) h.Outcome {
 	o := h.Outcome{}
 	m := &c.Issue.Model
-	valid := profileValid(m, c.SP)
+	valid := profileValid(m, c.SP) && !c.encAllSkip()
 	if valid != (len(c.Faults) == 0) {
 		// harness self-check: every applied fault must invalidate the model and nothing else may
 		o.Violation = h.V("harness/model-vs-faults", "profileValid=%v but faults=%v", valid, c.Faults)
@@ -622,6 +646,9 @@ func checkC03(c C03Case) h.Outcome {
 		o.Violation = v
 		return o
 	}
+	if c.encAllSkip() {
+		return o // the decoded struct of this message has no assertions; structOf(m) would not be it
+	}
 	// exported Validate on the decoded struct
 	err = c.SP.Build().Validate(structOf(m))
 	if v := judge("Validate", err); v != nil {
@@ -682,6 +709,25 @@ func TestC03_Grid(t *testing.T) {
 					cases = append(cases, c)
 				}
 			}
+		}
+	}
+	// every assertion encrypted under SkipSignatureValidation (nothing is decrypted there): no assertion to give
+	for n := 1; n <= 3; n++ {
+		for _, issuer := range []bool{true, false} {
+			sp := h.BaseSP()
+			sp.Skip = true
+			if !issuer {
+				sp.IdPIssuer = ""
+			}
+			g := gridGenuine(sp, n, "skip")
+			c := C03Case{SP: sp, Issue: g, EncAll: true, Faults: []Fault{{Target: -1, Kind: "noassertion", Variant: "all-encrypted-under-skip"}}, Expect: []ErrSpec{missingAssertion}}
+			encryptAll(g, &c.SP)
+			_, enc, _, err := g.Render()
+			if err != nil {
+				t.Fatalf("harness: %v", err)
+			}
+			c.Encoded = enc
+			cases = append(cases, c)
 		}
 	}
 	h.RunCases(t, "C03", cases, checkC03)
